@@ -31,9 +31,9 @@ PseudoCyclicSum(xs, p, tol, Sgn(_, _)) ==
 
 \* ---- power law ------------------------------------------------------------------
 PeakAbs(xs, sw) == [k \in 1..Len(sw) |-> FAbs(xs[sw[k] + 1])]
-Kept(xs, sw, cut) ==        \* peaks below cut * max|x| are replaced by 1e-14 in the cycle count
-  LET lim == FMul(cut, FMaxAbs(xs)) IN
-  [k \in 1..Len(sw) |-> IF FLt(PeakAbs(xs, sw)[k], lim) THEN FStr("1.0e-14") ELSE PeakAbs(xs, sw)[k]]
+Kept(xs, sw, cut) ==        \* peaks below cut * max|x| do not count: they are replaced by 1e-14 * max|x| in the cycle count
+  LET lim == FMul(cut, FMaxAbs(xs)) IN     \* (relative to the record, so that record and a_ref may scale together)
+  [k \in 1..Len(sw) |-> IF FLt(PeakAbs(xs, sw)[k], lim) THEN FMul(FStr("1.0e-14"), FMaxAbs(xs)) ELSE PeakAbs(xs, sw)[k]]
 PowSum(ps, invb) == FSum([k \in 1..Len(ps) |-> FPow(ps[k], invb)])
 \* equivalent number of cycles of amplitude aref (final value)
 NCycFinal(xs, sw, aref, b, cut) ==
